@@ -460,6 +460,92 @@ static void case_c10(const args_t *a, long c, rng_t *r)
 	model_free(&m);
 }
 
+/* ------------------------------------------------------------------ a table larger than 4 GiB: every accumulated counter crosses 2^32 */
+static void big_value(uint8_t *buf, size_t n, size_t i)
+{
+	size_t seedlen = n < 4096 ? n : 4096;
+	for (size_t j = 0; j < seedlen; j++) buf[j] = (uint8_t)(i * 131 + j * 7 + (j >> 8));
+	for (size_t have = seedlen; have < n;) { size_t c = have < n - have ? have : n - have; memcpy(buf + have, buf, c); have += c; }
+	if (n >= 16) { uint64_t tag = 0x1122334455667788ULL ^ (uint64_t)i; memcpy(buf + n - 8, &tag, 8); memcpy(buf + n / 2, &tag, 8); }
+}
+static void case_big(const args_t *a, long c, rng_t *r)
+{
+	char path[4096]; snprintf(path, sizeof path, "%s/big-%ld.mtbl", a->workdir, c); unlink(path);
+	const size_t VL = (16u << 20) + rndn(r, 4096);       /* every entry is larger than a block: one block per entry */
+	const size_t N = (size_t)((4400ULL << 20) / VL) + 1 + rndn(r, 4);
+	int poolsz = (c % 2) ? 2 : -1;
+	struct mtbl_threadpool *pool = poolsz > 0 ? mtbl_threadpool_init(poolsz) : NULL;
+	struct mtbl_writer_options *wo = mtbl_writer_options_init();
+	mtbl_writer_options_set_compression(wo, MTBL_COMPRESSION_NONE);
+	mtbl_writer_options_set_block_size(wo, 65536);
+	if (pool) mtbl_writer_options_set_threadpool(wo, pool);
+	struct mtbl_writer *w = mtbl_writer_init(path, wo);
+	mtbl_writer_options_destroy(&wo);
+	uint8_t *buf = xmalloc(VL + 64);
+	uint64_t bk = 0, bv = 0;
+	for (size_t i = 0; i < N; i++) {
+		char k[32]; size_t lk = snprintf(k, sizeof k, "big/%06zu", i);
+		size_t lv = VL - (i % 7);
+		big_value(buf, lv, i);
+		if (mtbl_writer_add(w, (uint8_t *)k, lk, buf, lv) != mtbl_res_success) { viol("C10/big-table-add-refused", "add %zu refused", i); break; }
+		bk += lk; bv += lv;
+	}
+	mtbl_writer_destroy(&w);
+	if (pool) mtbl_threadpool_destroy(&pool);
+	/* truth: walk the block frames with pread (own varint), nothing else of the file is trusted */
+	int fd = open(path, O_RDONLY); struct stat st; fstat(fd, &st);
+	uint8_t t[512]; if (pread(fd, t, 512, st.st_size - 512) != 512) { inconclusive("short trailer"); }
+	uint64_t off = 0, nblocks = 0, ioff = rd_le64(t);
+	while (off < ioff && nblocks <= N + 2) {
+		uint8_t h[16]; if (pread(fd, h, 16, off) < 11) break;
+		uint64_t len; unsigned ll = rd_varint(h, h + 10, &len);
+		if (!ll) break;
+		off += ll + 4 + len; nblocks++;
+	}
+	uint8_t h2[16]; uint64_t ilen = 0; unsigned ill = pread(fd, h2, 16, ioff) > 0 ? rd_varint(h2, h2 + 10, &ilen) : 0;
+	close(fd);
+	wcfg_t cfg; memset(&cfg, 0, sizeof cfg); cfg.block_size = 65536; cfg.pool = poolsz; cfg.restart = 16;
+	if (off != ioff) viol("C10/big-table-frames-do-not-end-at-index", "block frames end at %" PRIu64 ", trailer says the index starts at %" PRIu64, off, ioff);
+	struct mtbl_reader *rd = mtbl_reader_init(path, NULL);
+	if (!rd) viol("C10/reader-rejects-written-file", "reader NULL on the > 4 GiB table");
+	else {
+		const struct mtbl_metadata *md = mtbl_reader_metadata(rd);
+		cmp_field("count_entries", mtbl_metadata_count_entries(md), N, &cfg, "");
+		cmp_field("count_data_blocks", mtbl_metadata_count_data_blocks(md), nblocks, &cfg, "");
+		cmp_field("bytes_data_blocks", mtbl_metadata_bytes_data_blocks(md), off, &cfg, "");
+		cmp_field("bytes_index_block", mtbl_metadata_bytes_index_block(md), ill + 4 + ilen, &cfg, "");
+		cmp_field("bytes_keys", mtbl_metadata_bytes_keys(md), bk, &cfg, "");
+		cmp_field("bytes_values", mtbl_metadata_bytes_values(md), bv, &cfg, "");
+		cmp_field("index_block_offset", mtbl_metadata_index_block_offset(md), off, &cfg, "");
+		if ((uint64_t)st.st_size != off + ill + 4 + ilen + 512) viol("C10/index-extent-wrong", "file size %" PRIu64 " != data %" PRIu64 " + index + trailer", (uint64_t)st.st_size, off);
+		/* C01 on the same file: iteration returns every entry; lookups beyond 2^32 work */
+		struct mtbl_iter *it = mtbl_source_iter(mtbl_reader_source(rd));
+		const uint8_t *k, *v; size_t lk, lv, i = 0;
+		while (mtbl_iter_next(it, &k, &lk, &v, &lv) == mtbl_res_success) {
+			char wk[32]; size_t wl = snprintf(wk, sizeof wk, "big/%06zu", i);
+			size_t wlv = VL - (i % 7);
+			big_value(buf, wlv, i);
+			if (lk != wl || memcmp(k, wk, wl) != 0 || lv != wlv || memcmp(v, buf, wlv) != 0) { viol("C01/big-table-entry-differs", "entry %zu of the > 4 GiB table differs (key %s, %zu value bytes, expected %zu)", i, hexs(k, lk), lv, wlv); break; }
+			i++;
+		}
+		if (i != N) viol("C01/big-table-missing-entries", "iteration returned %zu of %zu entries of the > 4 GiB table", i, N);
+		mtbl_iter_destroy(&it);
+		for (size_t q = N - 3; q < N; q++) {
+			char wk[32]; size_t wl = snprintf(wk, sizeof wk, "big/%06zu", q);
+			struct mtbl_iter *g = mtbl_source_get(mtbl_reader_source(rd), (uint8_t *)wk, wl);
+			if (mtbl_iter_next(g, &k, &lk, &v, &lv) != mtbl_res_success || lv != VL - (q % 7)) viol("C02/big-table-get-wrong", "get(%s) beyond 4 GiB failed", wk);
+			mtbl_iter_destroy(&g);
+		}
+		mtbl_reader_destroy(&rd);
+	}
+	stat_add("big.bytes_written", st.st_size);
+	STAT("big.tables_over_4GiB");
+	if (poolsz > 0) STAT("big.tables_over_4GiB_pooled");
+	if (want_sample()) sample("big: %zu entries of ~16 MiB each (one block per entry), file of %" PRIu64 " bytes, pool %d: every byte counter and offset crosses 2^32", N, (uint64_t)st.st_size, poolsz);
+	case_hash(N * 1000003 + VL);
+	free(buf); unlink(path);
+}
+
 int main(int argc, char **argv)
 {
 	args_t a;
@@ -469,6 +555,7 @@ int main(int argc, char **argv)
 	if (!strcmp(a.sub, "c01")) f = case_c01;
 	else if (!strcmp(a.sub, "c09")) f = case_c09;
 	else if (!strcmp(a.sub, "c10")) f = case_c10;
+	else if (!strcmp(a.sub, "big")) f = case_big;
 	else return 98;
 	return run_cases(&a, f);
 }
